@@ -159,6 +159,7 @@ type SParam struct {
 
 // STypeExpr: textual type: optional stars / [] prefixes and a (qualified) name
 type STypeExpr struct {
+	Field string // third component of pkg.Type.field (heap/loc designators)
 	Raw   string // raw SMT sort text
 	Ptr   int
 	Slice bool // []Elem (Ptr applies to elem when Slice)
@@ -367,6 +368,14 @@ func (p *parser) typeExpr() *STypeExpr {
 		}
 		t.Pkg = t.Name
 		t.Name = id2.s
+		if p.isOp(".") {
+			p.next()
+			id3 := p.next()
+			if id3.k != tIdent {
+				p.fail("expected field name")
+			}
+			t.Field = id3.s
+		}
 	}
 	return t
 }
